@@ -17,6 +17,10 @@ SHAPES = {   # (mu0, nf0), (mu1, nf1), (mu2, nf2)
     # second leg then runs DOWN within nf = 4 to the matching scale before it crosses
     "forced-split": ((2.5, 4), (6.5, 4), (10.0, 5)),
     "forced-init": ((7.0, 4), (6.0, 4), (10.0, 5)),
+    # an initial point ABOVE the charm matching scale (1.51 GeV) with nf = 3: the path runs down within nf = 3,
+    # crosses UPWARDS in nf and ends below its starting scale at the split point (scale direction and nf
+    # direction disagree on the first leg)
+    "forced-down-up": ((3.0, 3), (2.5, 4), (4.0, 4)),
 }
 
 
